@@ -725,8 +725,9 @@ func (cpu *CPU) ChangeRegisterSizes_X() {
 		cpu.RXl = uint8(cpu.RX)
 		cpu.RYl = uint8(cpu.RY)
 	} else {
-		cpu.RX = cpu.RX&0xff00 | uint16(cpu.RXl)
-		cpu.RY = cpu.RY&0xff00 | uint16(cpu.RYl)
+		// the high bytes were forced to zero when the index registers became 8-bit
+		cpu.RX = uint16(cpu.RXl)
+		cpu.RY = uint16(cpu.RYl)
 	}
 }
 
